@@ -19,6 +19,7 @@ type Explorer struct {
 	Stop    func() bool
 
 	Executions int
+	Steps      int64 // scheduling decisions taken, summed over executions
 	Capped     bool
 	MaxPoints  int
 	Outcomes   map[string]int
@@ -55,6 +56,7 @@ func (x *Explorer) explore(prefix []int) bool {
 		x.FailTrace = append([]int{}, prefix...)
 		return false
 	}
+	x.Steps += int64(len(e.Points))
 	if len(e.Points) > x.MaxPoints {
 		x.MaxPoints = len(e.Points)
 	}
